@@ -76,6 +76,7 @@ def bfs(factory, depth, ctx, budget_s=None, chunk=8, max_states=None):
     level_sizes = []
     all_viols = []
     sample_hist = []
+    pruned = 0
     for d in range(1, depth + 1):
         if not frontier:
             break
@@ -92,6 +93,11 @@ def bfs(factory, depth, ctx, budget_s=None, chunk=8, max_states=None):
             for ev, k, vs in succ:
                 transitions += 1
                 all_viols.extend(vs)
+                if vs and getattr(_H, "prune_after_violation", False):
+                    # do not explore beyond a violating transition: implementation and reference have
+                    # diverged there, everything after it would be a consequence of the same defect
+                    pruned += 1
+                    continue
                 if k not in seen:
                     nh = tuple(hist) + (ev,)
                     seen[k] = nh
@@ -113,4 +119,5 @@ def bfs(factory, depth, ctx, budget_s=None, chunk=8, max_states=None):
         "violations": all_viols,
         "sample_histories": sample_hist,
         "frontier_left": len(frontier) if completed == depth else 0,
+        "pruned_after_violation": pruned,
     }
